@@ -282,6 +282,30 @@ theorem debye_integrand_pos {t : ℝ} (ht : 0 < t) :
       0 < Gen.Frank.debyeIntegrand t ∧ Gen.Frank.debyeIntegrand t < 1 :=
   ⟨BivFit.debyeIntegrand_eq t, BivFit.debyeIntegrand_pos ht, BivFit.debyeIntegrand_lt_one ht⟩
 
+/-- PARTIAL (uniqueness of the calibrated θ).  With `quad` read as the exact interval integral and a
+lower limit `ε > 0` (the code's `EPSILON`), the residual `a ↦ τ(a) − τ` passed to `least_squares`
+is strictly increasing on `[ε, ∞)`.
+Missing for the full claim "τ(θ) is strictly monotone on ℝ∖{0}": (i) the negative branch `a < 0` —
+not proved; note (unproved remark) that with the code's lower limit `ε > 0` instead of `0` one has
+`τ(a) ≈ 1 − 4/a − 4c/a²` with `c = ∫_0^ε > 0` as `a → 0⁻`, so the residual cannot be monotone on
+the whole of `(−∞, 0)`, only away from a `2c`-neighbourhood of `0`;
+(ii) existence of a root, i.e. the range of `τ(·)`; (iii) `integrate.quad` and `least_squares`
+accuracy are external hypotheses. -/
+theorem frank_tau_monotone_partial {ε τ : ℝ} (hε : 0 < ε) :
+    StrictMonoOn
+      (fun a => Gen.Frank.tauResidual (fun f lo hi => ∫ t in lo..hi, f t) ε τ a) (Set.Ici ε) := by
+  have h : (fun a => Gen.Frank.tauResidual (fun f lo hi => ∫ t in lo..hi, f t) ε τ a)
+      = BivFit.T ε τ := by
+    funext a; exact BivFit.bridge_tauResidual ε τ a
+  rw [h]; exact BivFit.T_strictMonoOn hε
+
+/-- PARTIAL: hence at most one `θ ≥ ε` calibrates a given τ (same reading, same gaps as
+`frank_tau_monotone_partial`). -/
+theorem frank_theta_unique_partial {ε τ a b : ℝ} (hε : 0 < ε) (ha : ε ≤ a) (hb : ε ≤ b)
+    (ra : Gen.Frank.tauResidual (fun f lo hi => ∫ t in lo..hi, f t) ε τ a = 0)
+    (rb : Gen.Frank.tauResidual (fun f lo hi => ∫ t in lo..hi, f t) ε τ b = 0) : a = b :=
+  BivFit.frank_root_unique hε ha hb ra rb
+
 /-! ## the tau-b model (shared with C01) -/
 
 section taub
